@@ -589,6 +589,63 @@ func gapFamily(maxWords int) fw.Family {
 	}
 }
 
+// hyphenFamily: <= maxParts word parts of width 1..3; every gap is a space (two kinds of glue) or
+// a flagged hyphenation point; the paragraph ends in a flagged forced break (a hyphen at the end
+// of the last line), an unflagged bare forced break, or the usual finish. Lines that end at a
+// flagged break followed by a flagged final break are the rule here, not the exception.
+func hyphenFamily(maxParts int) fw.Family {
+	gaps := []oracle.KPItem{glue(1, 1, 1), glue(1, 2, 0), pen(1, 50, true)}
+	ends := [][]oracle.KPItem{{pen(1, -text.Infinity, true)}, {forced()}, finishing()}
+	count := func(n int) int64 {
+		c := int64(len(ends))
+		for k := 0; k < n; k++ {
+			c *= 3
+		}
+		for k := 0; k < n-1; k++ {
+			c *= int64(len(gaps))
+		}
+		return c
+	}
+	total := int64(0)
+	for n := 2; n <= maxParts; n++ {
+		total += count(n)
+	}
+	build := func(i int64) []oracle.KPItem {
+		n := 2
+		for i >= count(n) {
+			i -= count(n)
+			n++
+		}
+		end := ends[i%int64(len(ends))]
+		i /= int64(len(ends))
+		var items []oracle.KPItem
+		for j := 0; j < n; j++ {
+			if j > 0 {
+				items = append(items, gaps[i%int64(len(gaps))])
+				i /= int64(len(gaps))
+			}
+			items = append(items, box(float64(1+i%3)))
+			i /= 3
+		}
+		return append(items, end...)
+	}
+	return fw.Family{
+		Name: fmt.Sprintf("<=%d word parts with spaces or flagged hyphenation points between them, ending in a flagged forced break / a bare forced break / the finish", maxParts), N: total,
+		Check: func(i int64, r *fw.R) {
+			items := build(i)
+			r.NontrivialIdx()
+			for _, w := range widths {
+				CheckOne(r, items, w)
+			}
+			r.Count("sequence_x_width", int64(len(widths)))
+		},
+		Desc: func(i int64) string {
+			items := build(i)
+			return FmtItems(items) + " features=" + features(items, Params())
+		},
+	}
+}
+
 // twoParagraphs: a paragraph of <= n1 words with independent gaps that ends in a forced break
 // WITHOUT the infinitely stretchable finishing glue (what GlyphsToItems emits for centred text),
 // followed by a second paragraph of <= n2 words with the usual finish. The line that ends at the
@@ -657,7 +714,13 @@ func families(tier string) []fw.Family {
 			withTunables(twoParagraphs(5, 3, false), tunables{1, 1, 10000, 10000}),
 			withTunables(twoParagraphs(5, 3, true), tunables{3, 10, 3000, 300}))
 	}
+	// a forced break may carry the flag too (a hyphen at the end of a paragraph line): two flagged breaks in a row
+	flaggedForced := append(reducedAlphabet(), token{pen(1, -text.Infinity, true)})
 	fs = append(fs,
+		seqFamily("reduced-alphabet + flagged forced break, long+finish", flaggedForced, d-1),
+		withTunables(seqFamily("reduced-alphabet + flagged forced break, long+finish", flaggedForced, d-2), tunables{1, 1, 10000, 10000}),
+		hyphenFamily(5),
+		withTunables(hyphenFamily(5), tunables{3, 10, 3000, 300}),
 		unterminatedFamily(baseAlphabet(), 4),
 	)
 	// development aid: C17_ONLY=<substring> restricts the run to the matching families
